@@ -378,7 +378,29 @@ def lean_list(items, indent="    ") -> str:
     return "[\n" + indent + (",\n" + indent).join(items) + "]"
 
 
+PINNED = __import__("pathlib").Path(__file__).with_name("entities_ir_pinned.lean.txt")
+
+
 def parts() -> list[str]:
+    """The IR of the current source; when the source has left the translatable fragment, the IR of the pinned
+    source (committed next to this file) with `entityIrFresh := false`: the theorems then speak about the
+    pinned logic only, and the tie to the current code is the correspondence run alone (reported in the
+    evidence).  A refactoring that keeps the behaviour therefore raises no alarm; one that changes it is
+    caught by correspondence / oracle."""
+    try:
+        out = fresh_parts()
+        return out + ["/-- the IR above was translated from the current source -/\ndef entityIrFresh : Bool := true"]
+    except Untranslatable as e:
+        import sys
+
+        print(f"translate_entities: {e}; falling back to the pinned IR", file=sys.stderr)
+        why = str(e).replace("-/", "- /")
+        return [PINNED.read_text().strip(),
+                f"/-- the current source is outside the translator's fragment ({why}); the IR above is the pinned one -/\n"
+                "def entityIrFresh : Bool := false"]
+
+
+def fresh_parts() -> list[str]:
     from pyxform.entities import entities_parsing as P
     from pyxform.entities.entity_declaration import EntityDeclaration as D
 
@@ -559,4 +581,7 @@ if __name__ == "__main__":
     from pathlib import Path
 
     sys.path.insert(0, str(Path(os.environ.get("PYXFORM_REPO", "/repo"))))
-    print("\n\n".join(parts()))
+    if "--pin" in sys.argv:
+        PINNED.write_text("\n\n".join(fresh_parts()) + "\n")
+    else:
+        print("\n\n".join(parts()))
